@@ -35,7 +35,8 @@ def aggregate(run, results, pid, want_value=True, want_sides=False):
                 continue
             if m.get("transformation_in") and rec.get("transformation") not in m["transformation_in"]:
                 continue
-            if m.get("model_contains") and m["model_contains"] not in r["model"]:
+            mc = m.get("model_contains")
+            if mc and not all(x in r["model"] for x in ([mc] if isinstance(mc, str) else mc)):
                 continue
             if k.get("diagnose") == "unused_initializer_input_dropped":
                 if "default of an unused graph input dropped" not in (rec.get("detail") or ""):
